@@ -438,7 +438,17 @@ fn key_of(d: &MTsDef) -> Option<(Key, bool)> {
 
 fn case_fn(case: &mut Case) -> CaseResult {
     let want_error = case.ch.chance(1, 4);
-    let doc = gen_doc(&mut case.ch, want_error);
+    let mut doc = gen_doc(&mut case.ch, want_error);
+    // one case in five: 12-40 filler definitions sprinkled in, so that documents are larger than any small
+    // threshold inside the resolver (sorting / hashing strategies change with size)
+    if case.ch.chance(1, 5) {
+        let n = case.ch.range(12, 40);
+        for i in 0..n {
+            let at = case.ch.below(doc.len() + 1);
+            doc.insert(at, MTsDef::Type(MTypeDef::new(Kind::Scalar, &format!("Filler{i}"))));
+        }
+        case.label("large-document");
+    }
     let files = split_files(&mut case.ch, doc.clone());
     let opts = if case.ch.chance(1, 3) {
         let mut o = RenderOpts::wild();
